@@ -16,7 +16,7 @@ func C07(p *load.Program, run *report.Run) {
 	lints.FillLoop(p, run, []string{"compiler/circuits"})
 	lints.ConstIndex(p, run, []string{"compiler/circuits"}, nil)
 	run.Floor("fill-loops", 5)
-	run.Floor("const-indices", 5)
+	run.Floor("const-indices", 3)
 }
 
 // C06rounding is the rounding-discipline clause.
@@ -164,6 +164,16 @@ func keptStateRule(p *load.Program, run *report.Run, pkgs []string) {
 			inv[cell] = "a buffer owned through a busy flag; ownership is decided by busy-flag-released-only-by-owner"
 		} else {
 			inv[cell] = "reported by busy-flag-released-only-by-owner"
+		}
+	}
+	for cell, why := range lazyResets(p, run, pkgs) {
+		if _, listed := inv[cell]; listed {
+			continue
+		}
+		if why == "" {
+			inv[cell] = "session state; dropped by every Init method (lazy-session-state-reset-by-every-init)"
+		} else {
+			inv[cell] = "reported by lazy-session-state-reset-by-every-init"
 		}
 	}
 	lints.LazyState(p, run, pkgs, inv)
